@@ -841,3 +841,37 @@ def written_lvalues(func):
             yield n["lhs"], n
         elif n["k"] == "UnaryOperator" and n["op"] in ("++", "--"):
             yield n["sub"], n
+
+
+def single_def_init(f, d):
+    """Initialiser of local d if that is its only definition (declared with an initialiser, never assigned / incremented,
+    address never taken), else None."""
+    init = None
+    for n in f.live_nodes():
+        if n["k"] == "DeclStmt":
+            for v in n["decls"]:
+                if v.get("d") == d:
+                    init = v.get("init")
+        elif is_assignment(n):
+            l = strip(n["lhs"])
+            if l["k"] == "DeclRefExpr" and l.get("d") == d and l.get("dk") == "local":
+                return None
+        elif n["k"] == "UnaryOperator" and n["op"] in ("++", "--", "&"):
+            l = strip(n["sub"])
+            if l["k"] == "DeclRefExpr" and l.get("d") == d and l.get("dk") == "local":
+                return None
+    return init
+
+
+def resolved_path(f, n, depth=0):
+    """access_path(n), looking through locals that are mere single-definition copies of another location
+    (`const size_t T = hash->tsize; ... % T`  ->  path of hash->tsize)."""
+    p = access_path(f, n)
+    if p is not None and p[0] == "local" and len(p) == 2 and depth < 5:
+        ini = single_def_init(f, p[1])
+        if ini is not None:
+            q = resolved_path(f, ini, depth + 1)
+            if q is not None:
+                return q
+    return p
+
